@@ -63,3 +63,12 @@ Lemma rQR_mul a b c d : rQR a c -> rQR b d -> rQR (dmul OpsQ a b) (c * d).
 Proof. unfold rQR; cbn [OpsQ dmul]. intros <- <-. apply Q2R_mult. Qed.
 Lemma rQR_neg a c : rQR a c -> rQR (dneg OpsQ a) (- c).
 Proof. unfold rQR; cbn [OpsQ dneg]. intros <-. apply Q2R_opp. Qed.
+
+Lemma Qleb_ok x y : Qleb x y = true -> (Q2R x <= Q2R y)%R.
+Proof.
+  unfold Qleb. destruct (x ?= y)%Q eqn:E; try discriminate; intros _.
+  - apply Qeq_alt in E. apply Qeq_eqR in E. rewrite E. apply Rle_refl.
+  - apply Qlt_alt in E. apply Qlt_Rlt in E. apply Rlt_le; exact E.
+Qed.
+Lemma Qltb_ok x y : Qltb x y = true -> (Q2R x < Q2R y)%R.
+Proof. unfold Qltb. destruct (x ?= y)%Q eqn:E; try discriminate. intros _. apply Qlt_alt in E. apply Qlt_Rlt; exact E. Qed.
